@@ -220,7 +220,7 @@ P_StartFilters == ev.kind = "start" => /\ ev.err = pre.v4
                                         /\ (~pre.effective => ev.spawned = 0)
 \* "is idempotent per MAC"
 P_Idempotent == ev.kind = "start" /\ pre.effective => ev.spawned = (IF pre.hunted THEN 0 ELSE 1)
-P_ListMatches == HuntMacs = refHunt /\ Cardinality(HuntMacs) = Len(hunt)
+P_ListMatches == refClosed \/ (HuntMacs = refHunt /\ Cardinality(HuntMacs) = Len(hunt))   \* (the statement is silent about the list after Close)
 \* "after StopHunt or Close no further forged advertisement reaches that host"; reading: at most the
 \* send round already past its check
 P_QuietAfterStop == /\ \A f \in Forged : ev.kind = "act" /\ ~pre.snapClosed /\ f.ed \in pre.snap
